@@ -139,6 +139,9 @@ def javaMethod (c : JavaCfg) (m : MethodD) : MethodS :=
     ret := javaReturnType c m.ret m.isAsync, name := convert c.methodStyle m.name,
     params := m.params.map (javaMember c), post := javaThrows c m }
 
+def javaCode (c : JavaCfg) (k : CodeD) : CodeS :=
+  { name := convert c.tyStyle k.name, fields := k.params.map (javaMember c), ctor := k.params.map (javaMember c) }
+
 def javaSkel (c : JavaCfg) : Decl → DeclS
   | .enum u items =>
     { DeclS.empty with
@@ -165,6 +168,6 @@ def javaSkel (c : JavaCfg) : Decl → DeclS
   | .error u codes =>
     { DeclS.empty with
       kind := "error", name := javaDeclName c u false, scope := javaPackage c u.ns,
-      codes := codes.map (fun k => { name := convert c.tyStyle k.name, fields := k.params.map (javaMember c), ctor := k.params.map (javaMember c) }) }
+      codes := codes.map (javaCode c) }
 
 end Pydjinni.Gen
